@@ -95,12 +95,13 @@ fn workload() {
             for _ in 0..k {
                 let s = rd.snapshot().expect("the reporter is alive");
                 bump(&SNAPSHOTS, 1);
-                if s.event_count + s.command_count > 0 {
+                if s.event_count > 0 || s.command_count > 0 {
                     bump(&MID_SNAPSHOTS_WITH_DATA, 1);
                 }
                 let mut g = got.lock().unwrap();
-                g.0 += s.event_count;
-                g.1 += s.command_count;
+                // Saturating: a broken counter may report absurd values; the conservation check below says so.
+                g.0 = g.0.saturating_add(s.event_count);
+                g.1 = g.1.saturating_add(s.command_count);
             }
         }));
     }
@@ -109,12 +110,12 @@ fn workload() {
     }
     let last = reader.snapshot().expect("the reporter is alive");
     bump(&SNAPSHOTS, 1);
-    if last.event_count + last.command_count > 0 {
+    if last.event_count > 0 || last.command_count > 0 {
         bump(&NONZERO_SNAPSHOTS, 1);
     }
     let (ge, gc) = {
         let g = got.lock().unwrap();
-        (g.0 + last.event_count, g.1 + last.command_count)
+        (g.0.saturating_add(last.event_count), g.1.saturating_add(last.command_count))
     };
     let desc = LAST_DESC.lock().map(|d| d.clone()).unwrap_or_default();
     if ge != want_events {
